@@ -130,6 +130,9 @@ class ContractDB:
                 n_ >= 0, f(a, n_ + 1, x_) == f(a, n_, x_) + z3.If(z3.Select(a, n_) == x_, 1, 0)),
                 patterns=[f(a, n_ + 1, x_)]))
             self.axioms.append(z3.ForAll([a, n_, x_], z3.Implies(n_ <= 0, f(a, n_, x_) == 0)))
+            # range of a count (by induction over the two defining equations): 0 <= count <= max(n, 0)
+            self.axioms.append(z3.ForAll([a, n_, x_], z3.And(f(a, n_, x_) >= 0, z3.Implies(n_ >= 0, f(a, n_, x_) <= n_)),
+                                         patterns=[f(a, n_, x_)]))
         return self._count[k](arr, n, x)
 
     def isinst(self, cls):
